@@ -48,6 +48,7 @@ def shards(tier, seed):
         layouts += [((2, 1), [0.5, 0.0, 0.5]), ((3,), [0.0, 1.0, q])]
     else:
         layouts += [((2, 1), [0.5, 0.0, 0.5])]
+    layouts.append(((2, 1), [0.5, q, 0.0]))     # zero crossover probability exactly at the start of chromosome 2
     # ---- L1: wiring — all xconfigs (ncross=1), covering pairs (ncross=2), single deviations
     for proto in R.PROTOS:
         k = R.NPARENT[proto]
@@ -73,7 +74,7 @@ def shards(tier, seed):
                     out.append(("L1", proto, lay, xop, nself, cfgs[i:i + step], 1, False))
         # ncross = 2 with scalar and array counts
         pairs = [(a, b) for a in cover[:4] for b in cover[:4]]
-        arrs = [1, 2, [1, 2], [2, 1]]
+        arrs = [1, 2, [1, 2], [2, 1], [0, 2], [2, 0]]
         cfgs = []
         for pi, (a, b) in enumerate(pairs):
             for ci, (nm, npg) in enumerate(itertools.product(arrs, arrs)):
@@ -97,6 +98,10 @@ def shards(tier, seed):
                 if not T:
                     cfgs = cfgs[(pi + nself) % 2::2]
                 out.append(("L4", proto, (2, 1), [0.5, q, 0.5], nself, cfgs, 1, pgo))
+    # ---- L6: large mating counts with narrow integer index dtypes (int8 / uint8 / int16 xconfig), default answers only
+    for proto in R.PROTOS:
+        for dt in ("int8", "uint8", "int16"):
+            out.append(("L6", proto, (2,), [0.5, q], 0, None, dt, None))
     # ---- L5: the duplicate utilities in pybrops/core/util/mate.py (dense_meiosis / dense_dh / dense_cross) with
     #          DIFFERENT female and male matrices (two parental pools), every selection pair, <= 2 deviations
     for lay, xop in layouts[:2]:
@@ -150,7 +155,7 @@ def _cover(tuples, k):
 
 # ----------------------------------------------------------------------------
 def run_case(ctx, proto, lay, xop, nself, xconfig, nm, npg, answers=None, bound=None, counters=(0, 0),
-             two_calls=False, split=None, seed=None, pgopts=None):
+             two_calls=False, split=None, seed=None, pgopts=None, xdtype="int64"):
     """Explore all answer vectors (<= bound deviations) of one configuration."""
     n = 3 if max(max(r) for r in xconfig) >= 2 else 3
     seed = ctx.seed if seed is None else seed
@@ -159,11 +164,11 @@ def run_case(ctx, proto, lay, xop, nself, xconfig, nm, npg, answers=None, bound=
     xop = [float(v) for v in pg.vrnt_xoprob]   # as stored (grouping may have re-ordered the columns)
     before = snapshot(pg)
     cls = _proto_cls(proto)
-    xc = numpy.array(xconfig, dtype="int64")
+    xc = numpy.array(xconfig, dtype=xdtype)
     nm_a = nm if isinstance(nm, int) else numpy.array(nm, dtype="int64")
     np_a = npg if isinstance(npg, int) else numpy.array(npg, dtype="int64")
     case_base = dict(proto=proto, layout=list(lay), xoprob=list(xop), nself=nself, xconfig=[list(r) for r in xconfig],
-                     nmating=nm, nprogeny=npg, counters=list(counters), two_calls=two_calls, seed=seed, pgopts=pgopts)
+                     nmating=nm, nprogeny=npg, counters=list(counters), two_calls=two_calls, seed=seed, pgopts=pgopts, xdtype=xdtype)
 
     def run(ch):
         h = MeiosisHandler(ch, xop, mode="full")
@@ -215,13 +220,13 @@ def run_case(ctx, proto, lay, xop, nself, xconfig, nm, npg, answers=None, bound=
                       case=case, sig_prefix=f"{proto}:second-call:")
         ncross_flags = int(sum(int(x.sum()) for x in xo1))
         key = digest((proto, lay, xop, nself, xconfig, nm, npg, tuple(_trim(ch.taken))))
-        if ncross_flags > 0 or len({decode[int(v)][1] for v in o1.mat[:, 0, :].ravel()}) > 1:
+        if ncross_flags > 0 or (o1.mat.shape[1] > 0 and len({decode[int(v)][1] for v in o1.mat[:, 0, :].ravel()}) > 1):
             ctx.nontriv(key)
         ctx.state(digest((proto, nself, o1.mat, o1.taxa_grp)))
         ctx.outcome(digest(o1.mat))
         if ok:
             ctx.traces += 1
-        if ctx.evaluations % 4001 == 1:
+        if ctx.evaluations % 4001 == 1 and o1.mat.shape[1] > 0:
             ctx.sample(dict(case, progeny_provenance=[[list(decode[int(v)]) for v in o1.mat[p, 0, :]] for p in range(2)]))
         ctx.count(f"exec:{proto}")
     if answers is None and explore.capped:
@@ -257,7 +262,7 @@ def oracle(ctx, proto, pg, before, decode, xc, nm, npg, nself, xop, counters, af
     require(len(names) == nprog and len(set(names)) == nprog, P + "names-unique", lambda: f"names {names}")
     exp_suffix = [str(counters[0] + i).zfill(7) for i in range(nprog)]
     pref = {nme[:-7] for nme in names}
-    require([nme[-7:] for nme in names] == exp_suffix and len(pref) == 1, P + "names-counter",
+    require([nme[-7:] for nme in names] == exp_suffix and len(pref) == (1 if nprog else 0), P + "names-counter",
             lambda: f"names {names} expected running counter {exp_suffix} behind one constant prefix")
     require(tuple(after) == (counters[0] + nprog, counters[1] + nc), P + "counters",
             lambda: f"counters after call {tuple(after)} expected ({counters[0]+nprog},{counters[1]+nc})")
@@ -365,6 +370,12 @@ def run_shard(spec, ctx):
         ctx.flag(f"L2:{proto}")
     elif layer == "L5":
         run_dense(ctx, lay, xop, bound)
+    elif layer == "L6":
+        kk = R.NPARENT[proto]
+        base = [tuple((i + j) % 3 for j in range(kk)) for i in range(2)]
+        for nm, npg in (([100, 70], 1), ([70, 100], [1, 2]) if ctx.tier == "thorough" else ([100, 70], 1)):
+            run_case(ctx, proto, lay, xop, nself, base, nm, npg, answers=[], counters=(0, 0), xdtype=bound)
+        ctx.flag("L6:narrow-index-dtype")
     elif layer == "L4":
         for ci, (xconfig, nm, npg) in enumerate(cfgs):
             run_case(ctx, proto, lay, xop, nself, xconfig, nm, npg, bound=bound, counters=(2, 9), pgopts=flag,
@@ -468,7 +479,7 @@ def finalize(ctx, tier, seed):
               "variants-stored-unsorted", "optional-arrays-absent"):
         assert f in ctx.flags, f
     assert len(ctx.outcomes) > 100, len(ctx.outcomes)
-    assert "L5:core.util.mate" in ctx.flags
+    assert "L5:core.util.mate" in ctx.flags and "L6:narrow-index-dtype" in ctx.flags
 
 
 def replay(case, ctx):
@@ -478,4 +489,4 @@ def replay(case, ctx):
         return
     run_case(ctx, case["proto"], tuple(case["layout"]), case["xoprob"], case["nself"],
              [tuple(r) for r in case["xconfig"]], case["nmating"], case["nprogeny"],
-             answers=case["answers"], counters=tuple(case["counters"]), two_calls=case["two_calls"], seed=case.get("seed"), pgopts=case.get("pgopts"))
+             answers=case["answers"], counters=tuple(case["counters"]), two_calls=case["two_calls"], seed=case.get("seed"), pgopts=case.get("pgopts"), xdtype=case.get("xdtype", "int64"))
